@@ -163,6 +163,7 @@ trait Geo<const D: usize>: 'static {
     const CONTAINS_RECT: &'static str; const COLLIDES_RECT: &'static str; const CV_RECT: &'static str;
     const INTO_RECT: &'static str; const INTO_AAB: &'static str;
     fn is_valid<T: El>(b: TB<T, D>) -> bool;
+    fn new_empty<T: El>(p: [T; D]) -> TB<T, D>;
     fn made_valid<T: El>(b: TB<T, D>) -> TB<T, D>;
     fn make_valid<T: El>(b: TB<T, D>) -> TB<T, D>;
     fn center<T: El>(b: TB<T, D>) -> [T; D];
@@ -231,6 +232,7 @@ macro_rules! geo_impl {
             const CONTAINS_RECT: &'static str = stringify!($contains_rect); const COLLIDES_RECT: &'static str = stringify!($collides_rect); const CV_RECT: &'static str = stringify!($cv_rect);
             const INTO_RECT: &'static str = stringify!($into_rect); const INTO_AAB: &'static str = stringify!($into_aab);
             fn is_valid<T: El>(b: TB<T, $D>) -> bool { Self::b(b).is_valid() }
+            fn new_empty<T: El>(p: [T; $D]) -> TB<T, $D> { Self::db($Aab::new_empty(Self::v(p))) }
             fn made_valid<T: El>(b: TB<T, $D>) -> TB<T, $D> { Self::db(Self::b(b).made_valid()) }
             fn make_valid<T: El>(b: TB<T, $D>) -> TB<T, $D> { let mut x = Self::b(b); x.make_valid(); Self::db(x) }
             fn center<T: El>(b: TB<T, $D>) -> [T; $D] { Self::dv(Self::b(b).center()) }
@@ -314,6 +316,21 @@ fn premise<const D: usize>(s: &Section, u: &Uni<D>) {
     }
     s.class_n("valid", u.vboxes.len() as u64);
     s.class_n("invalid-box", (u.boxes.len() - u.vboxes.len()) as u64);
+}
+
+/// `new_empty(p)`: the box that contains exactly the point p (min = max = p)
+fn new_empty_boxes<G: Geo<D>, T: El, const D: usize>(s: &Section, u: &Uni<D>) {
+    let site = sa::<G, T, D>("new_empty");
+    let mut t = Tally::new();
+    for p in u.pts.iter() {
+        let px = tp::<T, D>(p);
+        let inp = || json!({"p": jd(&px)});
+        let want: TB<T, D> = [px, px];
+        run(s, &mut t, true, &site, "not-the-single-point-box", &inp, wp(p), || G::new_empty(px), &want);
+        run(s, &mut t, true, &site, "single-point-box-does-not-contain-its-point", &inp, wp(p), || { let b = G::new_empty(px); G::is_valid(b) && G::contains_point(b, px) }, &true);
+    }
+    t.class("new_empty");
+    t.flush(s);
 }
 
 fn validity<G: Geo<D>, T: El, const D: usize>(s: &Section, u: &Uni<D>) {
@@ -789,9 +806,10 @@ fn main() {
         s.meta("scope", json!(scope));
     });
     rep.section("validity: is_valid, make_valid/made_valid, invalid boxes are empty",
-        "every box, valid and invalid (all g^(2D) corner pairs): is_valid == (min<=max on every axis); made_valid/make_valid == per-axis sorted corners; for every invalid box and every universe point contains_point == false (box, and the rectangle with the corresponding negative extent) and expanded_to_contain_point / expand_to_contain_point of box and rectangle yield a result that contains the point (closed-interval membership on its public fields); non-trivial: is_valid always, repairs on invalid boxes, emptiness on points inside the repaired hull", true, false, |s| {
-        s.require_classes(&["valid", "invalid-box", "invalid-on-one-axis", "invalid-on-every-axis", "valid-zero-extent"]);
+        "every universe point p: new_empty(p) == [p,p], valid and containing p; every box, valid and invalid (all g^(2D) corner pairs): is_valid == (min<=max on every axis); made_valid/make_valid == per-axis sorted corners; for every invalid box and every universe point contains_point == false (box, and the rectangle with the corresponding negative extent) and expanded_to_contain_point / expand_to_contain_point of box and rectangle yield a result that contains the point (closed-interval membership on its public fields); non-trivial: is_valid always, repairs on invalid boxes, emptiness on points inside the repaired hull", true, false, |s| {
+        s.require_classes(&["valid", "invalid-box", "invalid-on-one-axis", "invalid-on-every-axis", "valid-zero-extent", "new_empty"]);
         all_types!(s, validity);
+        all_types!(s, new_empty_boxes);
     });
     rep.section("contains_point is closed-interval membership",
         "every valid box x every universe point: contains_point == (min<=p<=max on every axis); non-trivial: boundary points and points one step outside", true, false, |s| {
@@ -830,6 +848,45 @@ fn main() {
         s.require_classes(&["zero-extent-operand", "centres-tie-on-an-axis", "penetrating", "touching", "separated"]);
         all_types!(s, collision_vector);
     });
+    rep.section("integer rectangles with odd extents and negative positions: Rect method == Aab method on the converted value",
+        "every Rect<i32,i32> with position in {-3..2}^2 and extent in {0..3}^2 (576) and every Rect3 with position in {-3,-2,0,1}^3, extent in {0,1,2,3}^3 (4096): center, and for every point of {-4..6}^D contains_point / expanded_to_contain_point, against the REAL Aabr/Aabb method on the box built by the harness from position and position+extent (struct literal), converted back by the harness; the point universe of the other sections has even corners only, where integer division never truncates - here it does; non-trivial: odd extent on some axis", true, false, |s| {
+        s.require_classes(&["odd-extent-negative-position", "even-extent", "point-on-max-edge"]);
+        let (mut n_odd, mut n_even, mut n_edge) = (0u64, 0u64, 0u64);
+        for x in -3i32..=2 { for y in -3i32..=2 { for w in 0i32..=3 { for h in 0i32..=3 {
+            let r = Rect { x, y, w, h };
+            let b = Aabr { min: Vec2 { x, y }, max: Vec2 { x: x + w, y: y + h } };
+            let odd = w % 2 != 0 || h % 2 != 0;
+            if odd && (x < 0 || y < 0) { n_odd += 1; } else if !odd { n_even += 1; }
+            let inp = || json!({"rect[x,y,w,h]": [x, y, w, h]});
+            s.eval(odd);
+            if let Some((g, want)) = s.call("Rect::center<i32>", inp, || (r.center(), b.center())) { if (g.x, g.y) != (want.x, want.y) { s.violation_w("Rect::center<i32>", "differs-from-the-box-method-on-the-converted-value", json!({"input": inp(), "got": [g.x, g.y], "want": [want.x, want.y]}), (x.abs() + y.abs() + w + h) as u64); } }
+            for px in -4i32..=6 { for py in -4i32..=6 {
+                let p = Vec2 { x: px, y: py };
+                if px == x + w || py == y + h { n_edge += 1; }
+                s.eval(odd);
+                if r.contains_point(p) != b.contains_point(p) { s.violation_w("Rect::contains_point<i32>", "differs-from-the-box-method-on-the-converted-value", json!({"input": inp(), "p": [px, py], "got": r.contains_point(p)}), (x.abs() + y.abs() + w + h) as u64); }
+                let (e, eb) = (r.expanded_to_contain_point(p), b.expanded_to_contain_point(p));
+                if (e.x, e.y, e.x + e.w, e.y + e.h) != (eb.min.x, eb.min.y, eb.max.x, eb.max.y) { s.violation_w("Rect::expanded_to_contain_point<i32>", "differs-from-the-box-method-on-the-converted-value", json!({"input": inp(), "p": [px, py], "got": [e.x, e.y, e.w, e.h]}), (x.abs() + y.abs() + w + h) as u64); }
+            } }
+            if odd && x < 0 && s.wants_sample() { s.sample(json!({"rect[x,y,w,h]": [x, y, w, h], "center must equal Aabr::center of": [[x, y], [x + w, y + h]]})); }
+        } } } }
+        let pos = [-3i32, -2, 0, 1];
+        for &x in &pos { for &y in &pos { for &z in &pos { for w in 0i32..=3 { for h in 0i32..=3 { for d in 0i32..=3 {
+            let r = Rect3 { x, y, z, w, h, d };
+            let b = Aabb { min: Vec3 { x, y, z }, max: Vec3 { x: x + w, y: y + h, z: z + d } };
+            let odd = w % 2 != 0 || h % 2 != 0 || d % 2 != 0;
+            if odd && (x < 0 || y < 0 || z < 0) { n_odd += 1; } else if !odd { n_even += 1; }
+            let inp = || json!({"rect3[x,y,z,w,h,d]": [x, y, z, w, h, d]});
+            s.eval(odd);
+            if let Some((g, want)) = s.call("Rect3::center<i32>", inp, || (r.center(), b.center())) { if (g.x, g.y, g.z) != (want.x, want.y, want.z) { s.violation_w("Rect3::center<i32>", "differs-from-the-box-method-on-the-converted-value", json!({"input": inp(), "got": [g.x, g.y, g.z], "want": [want.x, want.y, want.z]}), (x.abs() + y.abs() + z.abs() + w + h + d) as u64); } }
+            for p in [Vec3 { x: x + w, y, z }, Vec3 { x, y: y + h, z: z + d }, Vec3 { x: x - 1, y, z }, Vec3 { x: x + w + 1, y: y + h, z: z + d }] {
+                n_edge += 1; s.eval(odd);
+                if r.contains_point(p) != b.contains_point(p) { s.violation_w("Rect3::contains_point<i32>", "differs-from-the-box-method-on-the-converted-value", json!({"input": inp(), "p": [p.x, p.y, p.z], "got": r.contains_point(p)}), (x.abs() + y.abs() + z.abs() + w + h + d) as u64); }
+            }
+        } } } } } }
+        s.class_n("odd-extent-negative-position", n_odd); s.class_n("even-extent", n_even); s.class_n("point-on-max-edge", n_edge);
+    });
+
     rep.section("Rect <-> Aab conversions and Rect plumbing",
         "every valid box and the rectangle (position=min, extent=max-min) written down by the harness: into_rect / Rect::from(Aab) give that rectangle, into_aab / Aab::from(Rect) give the box back, both round trips are the identity, Aab::size is the extent (previous section); Rect::new, position, extent, position_extent, From<(Vec,Extent)> read/write the named fields, set_position / set_extent change exactly their own fields; non-trivial: positive extent and a non-zero position", true, false, |s| {
         s.require_classes(&["positive-extent", "zero-extent-axis", "position-nonzero-on-every-axis"]);
